@@ -198,5 +198,4 @@ func genReqHeads(rng *Rng, n int) {
 }
 
 func init() {
-	props["H1DEV"] = func(tier string, rng *Rng) { genReqHeads(rng, 100000) }
 }
